@@ -111,6 +111,56 @@ theorem bigmap_literal_default_raises (env : Env) (mode : Mode) (kvs : List (Val
     toMich env mode (some false) (.bigMap none kvs) = .error .noId := by
   simp [toMich, source_ok, raises, bigMapLazy]
 
+/-! ### what is NOT a value: the error branches of the reader (repairs 3f5c1d7, 1138dca, 45078c3) -/
+
+/-- a node `prim args` that carries an annotation is a value of NO type: `Unit %a`, `Right :t 5`, `Pair %x 1 2`,
+`Some @v 1` … (the classes with constructors go through `parse_micheline_value` / `PairType.from_micheline_value`,
+which assert `not annots`; every other class wants a literal or a sequence) -/
+theorem annotated_constructor_rejected (env : Env) (τ : Ty) (p : String) (args : List Mich) (an : String) (ans : List String) :
+    ∃ e, ofMich env τ (.prim p args (an :: ans)) = .error e := by
+  simp only [ofMich, source_ok, Bool.not_true, Bool.false_eq_true, if_false]
+  cases τ with
+  | leaf l a =>
+    cases l <;> simp [ofMichCore, leafOfMich, intLit, domOfMich, Except.map]
+  | option t a => rcases args with _ | ⟨x, _ | ⟨y, rest⟩⟩ <;> simp [ofMichCore]
+  | or l r a => rcases args with _ | ⟨x, _ | ⟨y, rest⟩⟩ <;> simp [ofMichCore]
+  | pair l r a => simp [ofMichCore, pairOfMich]
+  | list t a => simp [ofMichCore]
+  | set t a => simp [ofMichCore]
+  | map k v a => simp [ofMichCore]
+  | bigMap k v a => simp [ofMichCore, intLit, Except.map]
+  | lambda x y a => simp [ofMichCore]
+  | contract t a => simp [ofMichCore, domOfMich]
+  | ticket t a => simp [ofMichCore, pairOfMich]
+  | saplingState n a => simp [ofMichCore, intLit, Except.map]
+
+/-- … nor is a map / big_map literal with an annotated `Elt` anywhere in it a value (here: at the head; `mapElts`
+walks the items in order and stops at the first failure) -/
+theorem annotated_elt_rejected (env : Env) (k v : Ty) (a : Annot) (p : String) (mk mv : Mich) (an : String)
+    (ans : List String) (xs : List Mich) :
+    ofMich env (.map k v a) (.seq (.prim p [mk, mv] (an :: ans) :: xs)) = .error .shape ∧
+    ofMich env (.bigMap k v a) (.seq (.prim p [mk, mv] (an :: ans) :: xs)) = .error .shape := by
+  simp [ofMich, source_ok, ofMichCore, mapElts]
+
+/-- `Pair x1 x2 x3 …` / `{x1; x2; x3; …}` is a value of `pair a b` only when `b` is a pair type: over a list, set,
+map, option, … on the right it is rejected (before 1138dca the right component took the remaining arguments as its
+own elements: `Pair 1 2 3 : pair int (list int)` was read as `(1, [2; 3])`) -/
+theorem nary_over_nonpair_rejected (env : Env) (l r : Ty) (a : Annot) (x y z : Mich) (rest : List Mich)
+    (h : r.isPair = false) :
+    ofMich env (.pair l r a) (pairOf (x :: y :: z :: rest)) = .error .shape ∧
+    ofMich env (.pair l r a) (.seq (x :: y :: z :: rest)) = .error .shape := by
+  have := pairOfMich_many_nonpair a.named (ofMichCore env l) (ofMichCore env r) x y z rest
+  simp [ofMich, source_ok, ofMichCore, h, this.1, this.2]
+
+/-- a string with a character other than printable ASCII and newline is not a value of `string` (45078c3) -/
+theorem nonprintable_string_rejected (env : Env) (a : Annot) (s : String) (h : asciiOnly s = false) :
+    ofMich env (.leaf .string a) (.str s) = .error .value := by
+  simp [ofMich, source_ok, ofMichCore, leafOfMich, lit_string, h]
+
+/-- tab, 0x01, DEL and `é` are refused; a newline, a space and `~` are fine -/
+example : asciiOnly "a\tb" = false ∧ asciiOnly "\x01" = false ∧ asciiOnly "\x7f" = false ∧ asciiOnly "é" = false ∧
+    asciiOnly "a\nb" = true ∧ asciiOnly " ~" = true ∧ asciiOnly "" = true := by decide
+
 /-! ### the concrete clock: the RFC 3339 contract as a theorem -/
 
 /-- **days → date → days**, every integer day number (no bound) -/
@@ -230,6 +280,20 @@ theorem toyEnv_lawful : toyEnv.Lawful where
     simp only [toyEnv, String.length_ofList, List.length_replicate, Option.some.injEq]
     omega
   lambda_rt := by intro c _; rfl
+
+/-- `Pair 1 2 3` at `pair int (list int)` is rejected, `Pair 1 {2; 3}` is the value, and at `pair int (pair int int)`
+the flat form is accepted; `Unit %a` is not a value of `unit`, `Unit` is -/
+example :
+    ofMich toyEnv (.pair (.leaf .int {}) (.list (.leaf .int {}) {}) {}) (pairOf [.int 1, .int 2, .int 3]) = .error .shape ∧
+    ofMich toyEnv (.pair (.leaf .int {}) (.list (.leaf .int {}) {}) {}) (pairOf [.int 1, .seq [.int 2, .int 3]])
+      = .ok (.pair false (.int 1) (.list [.int 2, .int 3])) ∧
+    ofMich toyEnv (.pair (.leaf .int {}) (.pair (.leaf .int {}) (.leaf .int {}) {}) {}) (pairOf [.int 1, .int 2, .int 3])
+      = .ok (.pair false (.int 1) (.pair false (.int 2) (.int 3))) ∧
+    ofMich toyEnv (.leaf .unit {}) (.prim "Unit" [] ["%a"]) = .error .shape ∧
+    ofMich toyEnv (.leaf .unit {}) (.prim "Unit" [] []) = .ok .unit := by
+  refine ⟨(nary_over_nonpair_rejected toyEnv _ _ _ _ _ _ _ rfl).1, ?_, ?_, ?_, ?_⟩ <;>
+    simp [ofMich, source_ok, ofMichCore, pairOfMich, pairOf, Ty.isPair, leafOfMich, intLit, lit_int, mapMich, Except.map,
+      Annot.named, acc_unit]
 
 /-- a 5-comb with an annotated outer pair, a list, an option and a map inside, all three modes at once -/
 example (env : Env) (hl : env.Lawful) (mode : Mode) :
